@@ -3,6 +3,9 @@ package h
 import (
 	"encoding/json"
 	"sort"
+
+	"github.com/truora/minidyn/interpreter"
+	mtypes "github.com/truora/minidyn/types"
 )
 
 func textOf(override *[]int, print func() string) string {
@@ -105,6 +108,9 @@ func exec(p Prim, e *Event) *Resp {
 		return p.Fail(e.C, e.Mode)
 	case "AliasProbe":
 		return p.AliasProbe(e.C, e.T, e.Kind, e.Item, e.Item2)
+	case "NativeActivate":
+		p.ActivateNative(e.C)
+		return NewResp()
 	}
 	r := NewResp()
 	r.Err = "unknown-op"
@@ -325,6 +331,47 @@ type Runner struct {
 	known  *Known
 	fail   map[string]string
 	Events int
+	// C20: which registered callbacks ran during the current call (per back end), and whether the trace uses the
+	// native interpreter at all (only then responses carry "fired")
+	fired      [2]map[string]bool
+	nativeSeen bool
+}
+
+func firedList(m map[string]bool) []string {
+	out := make([]string, 0, len(m))
+	for k := range m {
+		out = append(out, k)
+	}
+	sort.Strings(out)
+	return out
+}
+
+// register installs an instrumented Go callback: it records that it ran and gives a fixed verdict (matchers) or
+// sets one attribute (updaters), so that the judge can tell which registration decided an operation.
+func (r *Runner) register(p Prim, side int, e *Event) *Resp {
+	r.nativeSeen = true
+	return guard(func() *Resp {
+		n := p.Native(e.C)
+		text := string(intsToBytes(e.Text))
+		id := e.ID
+		switch e.Op {
+		case "AddMatcher":
+			verdict := e.Verdict
+			n.AddMatcher(e.T, interpreter.ExpressionType(e.MKind), text, func(item, attrs map[string]*mtypes.Item) bool {
+				r.fired[side][id] = true
+				return verdict
+			})
+		case "AddUpdater":
+			attr, val := e.Attr, e.Val
+			n.AddUpdater(e.T, text, func(item, attrs map[string]*mtypes.Item) {
+				r.fired[side][id] = true
+				if val != nil {
+					item[attr] = ToCore(*val)
+				}
+			})
+		}
+		return NewResp()
+	})
 }
 
 // NewRunner builds a runner over the two real back ends.
@@ -340,14 +387,25 @@ func (r *Runner) Reset() {
 	r.P2.Reset()
 	r.known = NewKnown()
 	r.fail = map[string]string{}
+	r.fired = [2]map[string]bool{{}, {}}
+	r.nativeSeen = false
 }
 
 // Step executes one operation on both back ends and returns the trace line.
 func (r *Runner) Step(e *Event, observe bool) ([]byte, error) {
 	r.Events++
 	r.known.Learn(e)
-	r1 := Exec(r.P1, e)
-	r2 := Exec(r.P2, e)
+	var r1, r2 *Resp
+	if e.Op == "AddMatcher" || e.Op == "AddUpdater" {
+		r1, r2 = r.register(r.P1, 0, e), r.register(r.P2, 1, e)
+	} else {
+		r.fired[0], r.fired[1] = map[string]bool{}, map[string]bool{}
+		r1 = Exec(r.P1, e)
+		r2 = Exec(r.P2, e)
+		if r.nativeSeen {
+			r1.Fired, r2.Fired = firedList(r.fired[0]), firedList(r.fired[1])
+		}
+	}
 	// index names are learned from requests the clients accepted (an index the clients then fail to show or to
 	// read is reported by the judge); a refused request teaches nothing
 	if r1.Err == "none" || r2.Err == "none" {
@@ -368,6 +426,9 @@ func (r *Runner) Step(e *Event, observe bool) ([]byte, error) {
 	}
 	if e.Op == "DeleteTable" && r1.Err == "none" && r2.Err == "none" {
 		delete(r.known.idx, e.C+"/"+e.T)
+	}
+	if e.Op == "NativeActivate" {
+		r.nativeSeen = true
 	}
 	if e.Op == "Fail" {
 		m := e.Mode
